@@ -53,7 +53,7 @@ def meta(tier):
         "(both module styles, every root form), nested classes, same-named classes in two modules, string-valued aliases; for each the invariants I1-I10 "
         "(termination, no duplicates, root last, every direct member of every non-deferred node denoted by an earlier node - members computed independently "
         "with typing.get_args / typing.get_type_hints -, string alias = single deferred node, forward-ref nodes flagged cyclic, flagged nodes are revisits, "
-        "deferred nodes denote exactly the type incl. parameters, the five input forms agree, the memoised list survives mutation of a returned list); "
+        "deferred nodes denote exactly the type incl. parameters, the five input forms agree, the memoised list survives mutation of a returned list); type variables behind qualifiers stand for their bound / constraints and `Any` generic arguments are members (special `typevars`); "
         "non-trivial = static_order returned; distinct by (program, root form)" % (NCYC[tier], NDAG[tier]),
         "bounds": {"term_sets": SETS[tier], "cyclic_classes": NCYC[tier], "dag_classes": NDAG[tier]},
         "assumptions": ["cold state per program", "edge order is free, extra nodes are allowed: only the listed invariants are judged"],
